@@ -345,22 +345,49 @@ def r14_3(ctx, repo):
     ctx.floor(rule, 2)
 
 
+def _preorder(node, out=None):
+    out = [] if out is None else out
+    out.append(node)
+    for c in ast.iter_child_nodes(node):
+        _preorder(c, out)
+    return out
+
+
 def r14_4(ctx, repo):
     rule = 'R14.4'
-    fn = repo.method(CLS, '_create_log_likelihoods')
+    import copy
+    from .. import inline
+    fn0 = repo.method(CLS, '_create_log_likelihoods')
     construct = CLS + '._create_log_likelihoods'
+    # the construction site `chi.LogLikelihood(self._mechanistic_model, ..)`
+    # copies the shared model; look at the loop over individuals with the
+    # per-individual helper substituted in (wherever the regimen is set,
+    # caller or callee, it must precede the construction in the iteration)
+    fn = copy.deepcopy(fn0)
+    known = inline.load_baseline() - {'_create_log_likelihood'}
+    inl = inline.Inliner(repo, known)
+    inl.function(fn, CLS)
+    for parent in ast.walk(fn):
+        for child in ast.iter_child_nodes(parent):
+            child._parent = parent
+    fn._parent = getattr(fn0, '_parent', None)
     loops = [l for l in ast.walk(fn) if isinstance(l, ast.For)]
     done = False
     for l in loops:
+        order = {id(n): k for k, n in enumerate(_preorder(l))}
         sets = [c for c in ast.walk(l) if isinstance(c, ast.Call)
                 and U(c.func).endswith('_mechanistic_model.set_dosing_regimen')]
         makes = [c for c in ast.walk(l) if isinstance(c, ast.Call)
-                 and U(c.func) == 'self._create_log_likelihood']
+                 and U(c.func).split('.')[-1] == 'LogLikelihood'
+                 and c.args and U(c.args[0]) == 'self._mechanistic_model']
         if not makes:
             continue
+        if any(isinstance(x, ast.For) and x is not l and any(
+                m in ast.walk(x) for m in makes) for x in ast.walk(l)):
+            continue        # an outer loop; the inner one is analysed
         done = True
         ind = U(l.target)
-        where = repo.loc(l, CLS, fn.name)
+        where = repo.loc(fn0, CLS, fn0.name)
         if not sets:
             ctx.violation(rule, where, construct, 'no regimen',
                           'the likelihood of an individual is constructed '
@@ -377,7 +404,7 @@ def r14_4(ctx, repo):
             src = d[-1].value if d else arg
         stxt = U(src) if src is not None else '?'
         if not (('self._dosing_regimens' in stxt) and ind in stxt):
-            ctx.violation(rule, repo.loc(c, CLS, fn.name), construct,
+            ctx.violation(rule, where, construct,
                           'wrong regimen',
                           'set_dosing_regimen receives `%s`, not the '
                           'regimen of the current individual `%s`' % (
@@ -393,19 +420,19 @@ def r14_4(ctx, repo):
                and U(g) != 'self._dosing_regimens is not None']
         if bad:
             ctx.violation(
-                rule, repo.loc(c, CLS, fn.name), construct,
+                rule, where, construct,
                 'conditional regimen',
                 'the regimen is only applied when `%s` holds; an individual '
                 'for which it does not (e.g. an empty protocol, which is '
                 'falsy) keeps the regimen of the previously processed '
                 'individual, because the shared model is copied as it is'
                 % U(bad[0]))
-        elif c.lineno > makes[0].lineno:
-            ctx.violation(rule, repo.loc(c, CLS, fn.name), construct,
+        elif order[id(c)] > min(order[id(m)] for m in makes):
+            ctx.violation(rule, where, construct,
                           'order', 'the regimen is set after the likelihood '
                           '(which copies the model) has been constructed')
         else:
-            ctx.ok(rule, repo.loc(c, CLS, fn.name), construct,
+            ctx.ok(rule, where, construct,
                    'the regimen of the current individual is set on the '
                    'shared model before the likelihood copies it, guarded '
                    'only by the presence of regimens')
